@@ -127,3 +127,16 @@ def spin_layer(ctx, h19):
     finally:
         import shutil
         shutil.rmtree(work, ignore_errors=True)
+
+
+def replay(ctx, rec):
+    """Schedules are replayed by the harness itself; a violation of the Promela layer is replayed by running that layer again."""
+    import sys
+    sys.path.insert(0, os.path.dirname(os.path.dirname(ctx.checkdir)) + "/engine/driver")
+    import vlib
+    if not str(rec.get("key", "")).startswith("spin-model/"):
+        import types
+        return vlib.default_replay(types.SimpleNamespace(build=build), ctx, rec)
+    exes = build(ctx)
+    spin_layer(ctx, exes["h19"])
+    return [(v["key"], v["detail"]) for v in ctx.violations]
